@@ -619,6 +619,15 @@ class MdSim(object):
                 return
 
     # ---------------------------------------------------------------- round trip of node configs
+    @staticmethod
+    def _acs_or_empty(st, eid, binding):
+        if binding is None:
+            return []
+        try:
+            return st.assertion_consumer_service(eid, binding) or []
+        except Exception:
+            return []
+
     def op_roundtrip(self, ev, i, rec):
         spec = ev["spec"]
         xml = fed.metadata_xml(spec)
@@ -650,6 +659,16 @@ class MdSim(object):
                 if [g[0] for g in got] != want or len(set(g[1] for g in got)) != len(got):
                     self.viol(i, "roundtrip-endpoints-differ", "acs post got=%r want=%r" % (got, want))
                     return
+                if spec.get("acs_index"):
+                    # explicit indexes come back as configured
+                    conf_acs = fed.base_config(spec)["service"]["sp"]["endpoints"]["assertion_consumer_service"]
+                    want_ix = sorted((u_, str(ix_)) for (u_, b_, ix_) in conf_acs)
+                    got_ix = sorted((s["location"], str(s["index"])) for b_ in ("post", "redirect", "artifact")
+                                    for s in (self._acs_or_empty(st, eid, B.get(b_))))
+                    self.count("probe.roundtrip.explicit-indexes")
+                    if got_ix != want_ix:
+                        self.viol(i, "roundtrip-endpoints-differ", "acs indexes got=%r configured=%r" % (got_ix, want_ix))
+                        return
                 got = [s["location"] for s in st.assertion_consumer_service(eid, B["redirect"])]
                 if got != [ep["acs_redirect"]]:
                     self.viol(i, "roundtrip-endpoints-differ", "acs redirect got=%r" % got)
@@ -797,6 +816,8 @@ def generate(seed, prop, tier):
                 spec = {"kind": "sp", "name": "rt%d" % step, "key": r.randrange(12), "tenant": "m",
                         "enc_keys": r.pick([[], [r.randrange(12)], [r.randrange(12), r.randrange(12)]]),
                         "acs2": r.chance(0.3)}
+                if r.chance(0.4):
+                    spec["acs_index"] = r.pick([[0, 1, 2], [1, 0, 2], [2, 5, 0], [1, 2, 3], [7, 3, 9]])
             evs.append({"k": "roundtrip", "spec": spec})
         else:
             eid = r.pick(pool_ids) if r.chance(0.85) else "https://unknown%d.md.example/entity" % r.randrange(3)
